@@ -1,7 +1,7 @@
 (* C06 -- Equipment changes need the GCA's signature; a conflict bans exactly one id.
-   Statements only; proofs in ServerAuth_lemmas.v. *)
+   Statements only; proofs in ServerAuth_lemmas.v and (consistency check) ServerCheckInv_lemmas.v. *)
 From Coq Require Import ZArith List Bool.
-From GCA Require Import Wrap Bytes Codec Amap Timeslot Server ServerInv ServerDisk ServerReach_lemmas ServerAuth_lemmas ServerFull_lemmas.
+From GCA Require Import Wrap Bytes Codec Amap Timeslot Server ServerInv ServerDisk ServerReach_lemmas ServerAuth_lemmas ServerFull_lemmas ServerCheckInv_lemmas.
 Import ListNotations.
 Open Scope Z_scope.
 
@@ -50,4 +50,43 @@ Section C06.
     (a_id a = id -> snd (authorize verify st a) = Refused /\ fst (authorize verify st a) = st) /\
     (report_decode (firstn 80 d) = Some r -> r_id r = id -> fst (udp_receive verify st now d) = st).
   Proof. exact (banned_bounces verify st id a now d r). Qed.
+
+  (* "... and the server's own consistency check keeps passing": along every history
+     (restarts included) in which no authorization accepted as a NEW device carries a key
+     that the index maps to another id ([keys_ok]; without it: c06_key_reuse_refuted, K4) *)
+  Theorem c06_check_ok_passes st : CheckOK st -> MemInv (mm st) -> check_invariants st = true.
+  Proof. exact (check_ok_passes st). Qed.
+
+  Theorem c06_consistency_check_passes ops st :
+    Inv verify st -> CheckOK st -> Forall op_ok ops -> keys_ok verify sign stats_sb st ops ->
+    CheckOK (Server.run verify sign stats_sb st ops) /\
+    check_invariants (Server.run verify sign stats_sb st ops) = true.
+  Proof. exact (consistency_check_passes verify sign stats_sb ops st). Qed.
+
+  Theorem c06_consistency_check_always ops st n :
+    Inv verify st -> CheckOK st -> Forall op_ok ops -> keys_ok verify sign stats_sb st ops ->
+    check_invariants (Server.run verify sign stats_sb st (firstn n ops)) = true.
+  Proof. exact (consistency_check_always verify sign stats_sb ops st n). Qed.
+
+  Theorem c06_consistency_check_first_start tk fresh now st0 ops :
+    clock_ok now -> load verify (fresh_disk tk) fresh = LOk st0 ->
+    let s := fst (catch_up sign stats_sb (catchup_fuel now) st0 now) in
+    Forall op_ok ops -> keys_ok verify sign stats_sb s ops ->
+    CheckOK (Server.run verify sign stats_sb s ops) /\
+    check_invariants (Server.run verify sign stats_sb s ops) = true.
+  Proof. exact (consistency_check_first_start verify sign stats_sb tk fresh now st0 ops). Qed.
 End C06.
+
+(* K4 (known finding): with every signature valid, a first start followed by a registration
+   and two ACCEPTED authorizations for different ids with the same key keeps the full
+   invariant but fails the consistency check *)
+Theorem c06_key_reuse_refuted :
+  exists tk fresh now st0 ops,
+    clock_ok now /\ load vtrue (fresh_disk tk) fresh = LOk st0 /\
+    let s := fst (catch_up csign csb (catchup_fuel now) st0 now) in
+    Forall op_ok ops /\
+    outs vtrue csign csb s ops = [Accepted true; Accepted true; Accepted true] /\
+    Inv vtrue (Server.run vtrue csign csb s ops) /\
+    ~ keys_ok vtrue csign csb s ops /\
+    check_invariants (Server.run vtrue csign csb s ops) = false.
+Proof. exact key_reuse_refuted. Qed.
